@@ -20,7 +20,7 @@ def hx(b):
 
 NAMES = [b'a', b'bb', b':method', b'cookie', b'x-long-' + b'n' * 40, b'', bytes([0, 255, 128]), b'accept-charset',
          b':authority', b'x', b'set-cookie', b'\xc3\xa9t\xc3\xa9', b':path']
-VALS = [b'', b'1', b'GET', b'v' * 30, bytes(range(200, 256)), b'\xff\xfe', b'zz' * 70, b'0' * 8, b'b', b'/',
+VALS = [b'', b'ab\x00cd', b'1', b'GET', b'v' * 30, bytes(range(200, 256)), b'\xff\xfe', b'zz' * 70, b'0' * 8, b'b', b'/',
         b'\xe2\x82\xac', b'gzip, deflate', b'q' * 127, b'r' * 128]
 BIG = [b'L' * 16383, b'M' * 16384, b'K' * 5000]
 
@@ -74,7 +74,8 @@ class Gen:
             return int_octets(self.index(dynlen, bad), 7, 0x80, self.rnd.choice([0, 0, 0, 1, 2]))
         if k < 0.38 and allow_update:
             a = rd.allowed
-            n = self.rnd.choice([0, 33, 34, 66, 70, 100, a, a, max(a - 1, 0), a + 1 if self.rnd.random() < 0.3 else a, 4096])
+            n = self.rnd.choice([0, 33, 34, 66, 70, 100, a, a, max(a - 1, 0), a + 1 if self.rnd.random() < 0.3 else a, 4096,
+                                 2 * a + 5 if self.rnd.random() < 0.2 else a, 65536 if self.rnd.random() < 0.1 else a])
             return int_octets(n, 5, 0x20, self.zeros())
         pat, N = self.rnd.choice([(0x40, 6), (0x40, 6), (0x00, 4), (0x10, 4)])
         if self.rnd.random() < 0.5:
@@ -292,6 +293,9 @@ class Gen:
             ops.append('tget %d %d' % (tid, i + 1))
             ops.append('tsearch %d %s %s' % (tid, hx(n), hx(v)))
             ops.append('tsearch %d %s %s' % (tid, hx(n), hx(v + b'~x')))
+            ops.append('tsearch %d %s -' % (tid, hx(n)))                     # the name with an EMPTY value
+            ops.append('tsearch %d %s %s' % (tid, hx(n.upper()), hx(v)))     # other letter case: a different name
+            ops.append('tsearch %d %s %s' % (tid, hx(n.title()), hx(v)))
         ops.append('tsearch %d %s -' % (tid, hx(b'nonexistent')))
         ops.append('tsearch %d - -' % tid)
         # dynamic duplicates of static names / repeated names
@@ -576,6 +580,12 @@ class Gen:
             enc(e, [(n, v, True)], 1)
         e = new()
         enc(e, [(n, v, False) for n, v in STATIC])
+        e = new()
+        enc(e, [(n, b'', False) for n, v in STATIC])        # every static name with an empty value
+        enc(e, [(n, b'', True) for n, v in STATIC[:20]], 1)
+        e = new()
+        enc(e, [(n.title(), v, False) for n, v in STATIC if n.title() != n][:30])       # letter case differs: not the static name
+        enc(e, [(n.title(), v, False) for n, v in STATIC if n.title() != n][:30])
         enc(e, [(n, v + b'x', False) for n, v in STATIC[:20]], 1)
         enc(e, [(n, v + b'x', False) for n, v in STATIC[:20]], 1)
         # dynamic entries with empty values, repeated blocks
@@ -846,7 +856,7 @@ def enc_size_stream(g, n=40, start_id=7000):
     pool = [0, 30, 31, 32, 33, 34, 40, 64, 66, 100, 158, 159, 200, 300, 4096, 4097, 8192, 65536, 65537, 100000, 1 << 20]
     cat = [[40, 40], [40, 4096], [4096, 40, 4096], [200, 0, 200], [200, 100, 300, 200], [0], [0, 4096], [100, 0], [0, 100],
            [64, 4096], [4096, 64], [40, 100, 40], [100, 40, 100], [8192], [8192, 4096], [33, 34, 33], [0, 0], [4096], [4096, 4096, 4096],
-           [65537], [100000, 65536], [1 << 20, 70000], [31], [64, 31, 31], [30, 31, 32], [158, 159], [40, 100, 60], [200, 40, 200],
+           [1024] + [2048 + j for j in range(16)] + [2063], [300 + j for j in range(20)] + [319, 319], [65537], [100000, 65536], [1 << 20, 70000], [31], [64, 31, 31], [30, 31, 32], [158, 159], [40, 100, 60], [200, 40, 200],
            [0] + list(range(1000, 1200, 10)) + [4096], list(range(4000, 4040)), [100 + (7 * j) % 50 for j in range(30)] + [35]]
     i = start_id
     for seq in cat + [[rnd.choice(pool) for _ in range(rnd.randint(1, 5))] for _ in range(n)]:
@@ -1017,6 +1027,26 @@ def dec_extra_catalogue(g):
     ops.append('ddec %d 1 %s' % (x, hx(int_octets(1000, 5, 0x20) + b'\xbe')))
     ops.append('ddec %d 1 %s' % (x, hx(int_octets(1000, 5, 0x20))))
     ops.append('dallow %d 0' % x); ops.append('dallow %d 4095' % x); ops.append('ddec %d 1 82' % x)
+    # table at 0, then ONE block that raises it, inserts a large entry and references it many times; limits around
+    big_lit = _lit(g, 0x40, b'n' * 30, b'v' * 1000)
+    blk = int_octets(4096, 5, 0x20) + big_lit + b'\xbe' * 44
+    true_size = 45 * 1062
+    for lim in (30000, true_size, true_size - 1, 65536, 1062, 1061):
+        x = new(lim)
+        ops.append('ddec %d 1 20' % x)
+        ops.append('ddec %d 1 %s' % (x, hx(blk)))
+        ops.append('ddec %d 1 be' % x)
+    # far-above-limit updates (multi-octet, already above the limit before their last octet)
+    x = new()
+    for u in (4097, 8192, 16384, 32768, 65536, 1 << 20, 1 << 40):
+        ops.append('ddec %d 1 %s' % (x, hx(int_octets(u, 5, 0x20))))
+        ops.append('ddec %d 1 %s' % (x, hx(int_octets(u, 5, 0x20, 2) + b'\x82')))
+    x = new(); ops.append('dallow %d 127' % x)
+    for u in (128, 286, 127 + 128 * 128):
+        ops.append('ddec %d 1 %s' % (x, hx(int_octets(u, 5, 0x20))))
+    x = new(); ops.append('dallow %d 0' % x)
+    for u in (1, 31, 4096):
+        ops.append('ddec %d 1 %s' % (x, hx(int_octets(u, 5, 0x20))))
     # the same (name, value) under every representation, text mode, one decoder (and static entries as literals)
     x = new()
     for raw in (0, 1, 0):
@@ -1419,7 +1449,8 @@ def coincidence_stream(g, start_id=22000):
             ops.append('esize %d 8192' % i)
         for huff in (0, 1):
             v = bytes([97 + (L + huff) % 26]) * L
-            for hs in ([(b'k', v, False)], [(v, b'v', False)], [(b'k', v, True)]):
+            v2 = bytes([65 + (L + huff) % 26]) * L
+            for hs in ([(b'k', v, False)], [(b'k', v2, False)], [(b'cookie', v, False)], [(v, b'v', False)], [(b'k', v, True)], [(b'cookie', v2, True)]):
                 for _ in range(2):
                     ops.append('eenc %d %d %s' % (i, huff, ' '.join('%s:%s:%d' % (hx(n), hx(x), int(s)) for n, x, s in hs)))
                     ops.append('pipe %d %d %d' % (i, rnd.choice([0, 1]), i))
